@@ -18,7 +18,7 @@ import warnings
 import numpy
 from fractions import Fraction
 
-from .. import fpx, softcheck
+from .. import engine, fpx, softcheck
 from ..runner import ROOT, Infra
 from ..translate import blocks, ir
 
@@ -47,18 +47,7 @@ SUF = blocks.SUFFIX
 # ----------------------------------------------------------------------------- variants
 
 def _trace_expr_fn(fn_builder, nargs, fmt):
-    """Trace an Expr-level function (utils.py / algorithms.py copies run on fa.Expr operands)."""
-    import functional_algorithms as fa
-    from functional_algorithms import floating_point_algorithms as fpa
-
-    with warnings.catch_warnings():
-        warnings.simplefilter("ignore")
-        ctx = fa.Context(paths=[fpa])
-        names = list("xyzw")[:nargs]
-        syms = [ctx.symbol(n, fmt) for n in names]
-        res = fn_builder(ctx, *syms)
-        outs = list(res) if isinstance(res, (tuple, list)) else [res]
-        return ir.Builder(fmt, names).program(outs)
+    return engine.trace_expr_fn(fn_builder, nargs, fmt, names=list("xyzw")[:nargs])
 
 
 def variants():
@@ -145,28 +134,7 @@ def variants():
 
 def generate(ctx):
     V = variants()
-    progs = {}
-    errors = {}
-    for name, v in V.items():
-        for fmt in FMTS:
-            key = f"{name}_{SUF[fmt]}"
-            try:
-                progs[key] = v["trace"](fmt)
-            except Exception as e:  # tracing the current source failed: recorded, decided by search
-                errors[key] = f"{type(e).__name__}: {e}"
-    lines = ["/- GENERATED by fav/props/c10.py from /repo's current source; do not edit. -/", "import FAVerif.IR.Prog", "",
-             "namespace FAVerif.Gen.C10", "open FAVerif.IR", ""]
-    for key in sorted(progs):
-        lines.append(ir.prog_to_lean(progs[key], key))
-    lines.append("def all : List (String × Prog) := [")
-    lines.append(",\n".join(f'  ("{k}", {k})' for k in sorted(progs)))
-    lines.append("]")
-    lines.append("")
-    lines.append("end FAVerif.Gen.C10")
-    ctx.lean.write_generated("C10.lean", "\n".join(lines) + "\n")
-    os.makedirs(os.path.join(ROOT, ".work", "gen"), exist_ok=True)
-    with open(os.path.join(ROOT, ".work", "gen", "C10.json"), "w") as f:
-        json.dump(dict(progs=progs, errors=errors), f)
+    progs, errors = engine.generate(ctx, V, "C10", FMTS)
     return V, progs, errors
 
 
@@ -271,39 +239,6 @@ def check_clause(clause, fmt, opts, ins, outs, interm_finite):
     raise ValueError(clause)
 
 
-def eval_all_nodes(prog, inbits):
-    """Independent interpreter returning (outs, all_finite)."""
-    fmt = prog["fmt"]
-    sub = dict(prog)
-    sub["outs"] = list(range(len(prog["nodes"])))
-    vals, calls = ir.eval_prog_numpy(sub, list(inbits))
-    allfin = True
-    for n, v in zip(prog["nodes"], vals):
-        if n["op"] in ("lt", "le", "gt", "ge", "eq", "ne", "and", "or", "xor", "not", "bconst", "isfinite", "const"):
-            continue
-        if n["op"] == "select":
-            continue
-        if v == "nan" or not fpx.is_finite(v, fmt):
-            allfin = False
-    return [vals[k] for k in prog["outs"]], allfin
-
-
-def run_eager(v, fmt, tuples):
-    """Real function on arrays of inputs (NumpyContext / numpy operator overloading)."""
-    if v["eager"] is None:
-        return None
-    cols = [fpx.arr_from_bits([t[i] for t in tuples], fmt) for i in range(v["nargs"])]
-    with warnings.catch_warnings(), numpy.errstate(all="ignore"):
-        warnings.simplefilter("ignore")
-        res = v["eager"](fmt, cols)
-    res = list(res) if isinstance(res, (tuple, list)) else [res]
-    outs = []
-    for r in res:
-        r = numpy.broadcast_to(numpy.asarray(r, dtype=fpx.NPF[fmt]), (len(tuples),))
-        outs.append([ir.canon_bits(b, fmt) for b in fpx.bits_from_arr(numpy.ascontiguousarray(r), fmt)])
-    return [tuple(o[i] for o in outs) for i in range(len(tuples))]
-
-
 # ----------------------------------------------------------------------------- run
 
 def run(ctx):
@@ -311,9 +246,6 @@ def run(ctx):
                 "13-bit sliver); non-trivial = inside the documented domain with a non-zero low word; distinct by (variant, dtype, operand bits)")
     V, progs, errors = generate(ctx)
     broken = ctx.lean_stage(["FAVerif.Props.C10"], THEOREMS)
-    for key, e in errors.items():
-        broken.append(ctx.broken(f"translate:{key}", e))
-
     # Soft vs machine arithmetic
     n_soft, bad = softcheck.run(ctx, ctx.scale(20000, 400000))
     ctx.obligation(f"softfloat==numpy on {n_soft} directed operations", not bad, kind="validation")
@@ -322,72 +254,11 @@ def run(ctx):
         broken.append(ctx.broken("correspondence:Soft-vs-numpy", json.dumps(bad[:5])))
 
     n_per = ctx.scale(1500, 60000)
-    lean_lines, lean_expect = [], []
-    corr_bad = 0
-    for name, v in V.items():
-        for fmt in FMTS:
-            key = f"{name}_{SUF[fmt]}"
-            prog = progs.get(key)
-            tuples = gen_inputs(ctx, fmt, v["nargs"], n_per, v["clause"])
-            real = run_eager(v, fmt, tuples)
-            if prog is not None:
-                lean_lines.append(ir.prog_to_line(prog))
-                lean_expect.append(None)
-            nviol = 0
-            for i, t in enumerate(tuples):
-                if prog is not None:
-                    outs_i, allfin = eval_all_nodes(prog, t)
-                else:
-                    outs_i, allfin = None, True
-                impl = real[i] if real is not None else tuple(outs_i)
-                # correspondence (a): traced program (independent interpreter) == eager real code
-                if real is not None and prog is not None and tuple(outs_i) != tuple(impl):
-                    corr_bad += 1
-                    if corr_bad <= 3:
-                        broken.append(ctx.broken(f"correspondence:trace-vs-eager:{key}", json.dumps(dict(inputs=t, traced=outs_i, eager=impl))))
-                # correspondence (b): Lean softfloat evaluation of the program (sampled)
-                if prog is not None and i % 8 == 0:
-                    lean_lines.append("eval " + ",".join(map(str, t)))
-                    lean_expect.append((key, t, " ".join(map(str, outs_i))))
-                # search: the property clause on the real result
-                fail = check_clause(v["clause"], fmt, v["opts"], t, list(impl), allfin)
-                nontrivial = fail is not None or (allfin and impl[-1] not in (0, 1 << (fpx.FMT[fmt][2] - 1), "nan"))
-                ctx.case(key=(key, t), nontrivial=nontrivial)
-                ctx.count(f"{v['clause']}:{fmt}")
-                if fail is not None:
-                    nviol += 1
-                    if nviol <= 2:
-                        sig = f"{v['clause']}:{name}:{fmt}:" + fail.split(":")[0].split("(")[0].strip()
-                        ctx.violation(sig, f"{name}[{fmt}] {v['opts']}: {fail}; inputs (bit patterns) {t} -> {impl}",
-                                      dict(variant=name, fmt=fmt, inputs=list(t), outputs=list(impl), failure=fail))
-            if nviol:
-                ctx.count(f"violations:{key}", nviol)
-            if tuples:
-                ctx.sample(dict(variant=name, fmt=fmt, inputs=list(tuples[0]), outputs=list(real[0]) if real else None), limit=6)
-    out = ctx.lean.driver("Prog", lean_lines, timeout=3000)
-    if len(out) != len(lean_lines):
-        raise Infra("Prog driver output length mismatch")
-    lean_bad = 0
-    for o, e in zip(out, lean_expect):
-        if e is None:
-            if not o.startswith("ok") or not o.endswith("true"):
-                lean_bad += 1
-                broken.append(ctx.broken("correspondence:lean-prog-load", o))
-            continue
-        ctx.traces_validated += 1
-        if o != e[2]:
-            lean_bad += 1
-            if lean_bad <= 3:
-                broken.append(ctx.broken(f"correspondence:lean-eval:{e[0]}", json.dumps(dict(inputs=e[1], lean=o, numpy=e[2]))))
-    ctx.obligation("correspondence: traced program == eager real function (bit-for-bit)", corr_bad == 0, kind="correspondence")
-    ctx.obligation("correspondence: Lean softfloat evaluation of regenerated programs == NumPy evaluation", lean_bad == 0, kind="correspondence")
-    ctx.notes["programs"] = len(progs)
-    ctx.notes["translate_errors"] = errors
-    # broken items without a failing input are reported by the runner (no-failing-input-found):
-    # the search above already covered every variant on the real code.
-    for b in broken:
-        if any(v["signature"].split(":")[1] in b["name"] for v in ctx.violations):
-            b["has_failing_input"] = True
+    engine.run_variants(
+        ctx, V, progs, errors, FMTS,
+        gen_inputs=lambda c, fmt, v, n: gen_inputs(c, fmt, v["nargs"], n, v["clause"]),
+        check_clause=lambda v, fmt, t, outs, allfin, prog: check_clause(v["clause"], fmt, v["opts"], t, outs, allfin),
+        n_per=n_per, broken=broken)
 
 
 def replay(ctx, obj):
@@ -400,8 +271,8 @@ def replay(ctx, obj):
     fmt = rp["fmt"]
     t = tuple(rp["inputs"])
     prog = v["trace"](fmt)
-    outs_i, allfin = eval_all_nodes(prog, t)
-    real = run_eager(v, fmt, [t])
+    outs_i, allfin = engine.eval_all_nodes(prog, t)
+    real = engine.run_eager(v, fmt, [t])
     impl = real[0] if real else tuple(outs_i)
     fail = check_clause(v["clause"], fmt, v["opts"], t, list(impl), allfin)
     print(dict(inputs=t, outputs=impl, failure=fail))
